@@ -59,6 +59,8 @@ func (backRR *BackendRR) Init(subClusterName string, conf *cluster_table_conf.Ba
 
 func (backRR *BackendRR) UpdateWeight(weight int) {
 	backRR.weight = weight * 100
+	// slow start must ramp to the reloaded weight, not to the one from Init
+	backRR.weightSS.final = backRR.weight
 
 	// if weight > 0, don't touch backRR.current
 	if weight <= 0 {
